@@ -21,6 +21,7 @@ META = {
     'technique': 'static analysis: abstract interpretation of the wrapper pipeline with failing printer behaviours; typestate ov'
                  'er exception paths; effect inventory',
 }
+META['text'] += ' The warning template is a constant (the failure text is only substituted into it); printers that take the trailing comment through **kwargs are covered (signature objects with .parameters and .bind).'
 
 
 def run(repo, rep):
